@@ -389,6 +389,10 @@ def run_check(pid, tier, seed, jobs=None, replay=None, only=None):
     print("  observed: " + ", ".join("%s=%s" % kv for kv in list(ev.items())[:40]))
     if cov["distinct"]:
         print("  distinct: " + ", ".join("%s=%s" % kv for kv in cov["distinct"].items()))
+    if "rejections" in agg["sets"]:
+        cov["rejection_messages"] = sorted(agg["sets"]["rejections"])[:12]
+        print("  rejections: " + " | ".join(cov["rejection_messages"][:6]))
+    json.dump(jsonable(evidence), open(evid_path, "w"), indent=1)
     import shutil
     shutil.rmtree(tmp, ignore_errors=True)
     if rc:
